@@ -121,6 +121,12 @@ def _run_hist(res, case):
             if not t.done():
                 res.fail("C17|sleeper-never-wakes", "a sleeper is still pending 1300 s after the last switch")
                 t.cancel()
+            elif t.cancelled() or t.exception() is not None:
+                # nobody cancelled this sleeper: config_sleep itself raised into it
+                why = "CancelledError" if t.cancelled() else repr(t.exception())
+                res.fail("C17|sleeper-killed", f"a config-aware sleep ended with {why} instead of returning (another sleeper's timeout or a switch tore down the shared wake-up signal)")
+        if bg.done():
+            res.fail("C17|sleeper-killed", "the long-running background sleeper was ended by the library (nobody cancelled it)")
         bg.cancel()
         await asyncio.gather(bg, *tasks, return_exceptions=True)
         tol = J + 1e-3
